@@ -49,6 +49,9 @@ TIME_SETS = {
     "fraction": ([0.25, 50.25, 100.25], [0.0, 50.0, 100.0]),
     "int": ([0, 50, 100], V_WINDOWS),                                   # python ints: int-typed offset column
     "tight": ([0.0, 0.5, 1.0], [0, 0.5, 1.0]),                          # several times inside one millisecond
+    # dimension 18: times that lie on two different grids (k * 100 and k * 100 + 31.25; differences 31.25 / 68.75 / 100 / 131.25) with vertical
+    # windows finer than, equal to and coarser than the steps - each window value IS one of the differences, so a note sits exactly on its end
+    "uneven": ([0.0, 31.25, 100.0, 131.25], [31.25, 68.75, 100.0]),
 }
 V_EXTRA = ["huge", "between"]                                           # 1e9 (beyond every difference) / half a grid step
 H_WINDOWS = [None, 0, 1, 2]
@@ -692,7 +695,7 @@ def _random_base(rng, plain=False):
         notes = _random_notes(rng)
         return dict(notes=notes, cls=rng.choice(["base", "base", "osu"]), tails=rng.random() < 0.6), TIMES, V_WINDOWS, H_WINDOWS
     keys = rng.choice(KEY_COUNTS)
-    tname = rng.choice(["base"] * 8 + ["negative", "large", "fraction", "int", "int", "tight", "tight"])
+    tname = rng.choice(["base"] * 8 + ["negative", "large", "fraction", "int", "int", "tight", "tight", "uneven", "uneven"])
     times, vws = TIME_SETS[tname]
     cls = rng.choice(GAMES)
     lengths = HOLD_LENGTHS + (HOLD_LENGTHS_MORE if rng.random() < 0.4 else [])
@@ -741,7 +744,7 @@ def _random_base(rng, plain=False):
 def grouping_and_combinations_vs_statement(rep):
     rng = rep.rng
     N = rep.n(700, 25000)
-    rep.bound = (f"up to {N} seeded note sets: 0..6 notes on distinct cells of K columns x 3 times (10% with a second note on an occupied cell), 30% holds with tails requested or not; "
+    rep.bound = (f"up to {N} seeded note sets: 0..6 notes on distinct cells of K columns x 3 times (time scale 'uneven': 4 times on two interleaved grids, windows equal to the differences 31.25 / 68.75 / 100) (10% with a second note on an occupied cell), 30% holds with tails requested or not; "
                  f"one note set in 4 in the original scope (K={KEYS}, times {TIMES}, hold lengths {HOLD_LENGTHS}, base / osu classes, from_note_lists([hits, holds], include_tails=..), keyword arguments); the others: K in {sorted(set(KEY_COUNTS))}, "
                  f"times {({k: v[0] for k, v in TIME_SETS.items()})}, hold lengths also {HOLD_LENGTHS_MORE} (40%), note classes of base / osu / quaver / sm (with mine and roll lists) / bms / o2jam, 8% numpy scalars, "
                  "15% through Pattern(cols, offsets, types) in any entry order, else from_note_lists with the lists in either order, include_tails by keyword / positional / defaulted, each note list in 55% built by "
